@@ -88,6 +88,8 @@ fn push_msg(tag: &str, i: usize) -> Msg {
         }
         1 => {
             attrs.insert("clé".to_string(), "värde ✓".to_string());
+            // characters beyond the Basic Multilingual Plane (surrogate pairs in JSON escapes)
+            attrs.insert("\u{1F3AF}".to_string(), "mood \u{1F600} \u{10348} \u{1D11E}".to_string());
             attrs.insert("empty".to_string(), String::new());
         }
         _ => {}
